@@ -43,7 +43,7 @@ type CensorCase struct {
 }
 
 var censorPatterns = []string{"%%SELECT%%", "%%INSERT%%", "%%UPDATE%%", "%%DELETE%%", "%%UNION%%",
-	"select %%COLUMN%% from t1", "select a from t1 where %%WHERE%%", "select a from t1 where b = %%VALUE%%",
+	"select %%COLUMN%% from t1", "select a from t1 where b = %%VALUE%%",
 	"select a from t1 where b in (%%LIST_OF_VALUES%%)", "delete from t1 where a = %%VALUE%%", "insert into t1 values (%%VALUE%%)"}
 
 var censorTables = []string{"t1", "t2", "a", "b", "tbl", "t", "zz9", "name1", "nosuchtable"}
@@ -129,6 +129,15 @@ func (cfg CensorCfg) yamlOf(dir, self string, selfParses bool) (string, []string
 	return string(b), captures, parseErr
 }
 
+var notedPanics = map[string]bool{}
+
+func notePanic(sig, sql, cfg string) {
+	if !notedPanics[sig] {
+		notedPanics[sig] = true
+		R.Note("out of domain (see C14/C05): AcraCensor.HandleQuery panicked (%s) on %q with configuration %q", sig, sql, cfg)
+	}
+}
+
 type censorInfo struct {
 	p           parsed
 	verdict     string // allowed | denied
@@ -185,14 +194,26 @@ func CheckCensor(c CensorCase) (vs hx.Vs, info censorInfo) {
 	// only what is logged while the statement is handled counts (the configuration is the operator's text)
 	me, mo := lc.mark()
 	var err error
-	if hx.Guard(&vs, "HandleQuery", func() { err = censor.HandleQuery(c.SQL) }) {
-		return vs, info
+	var pvs hx.Vs
+	if hx.Guard(&pvs, "HandleQuery", func() { err = censor.HandleQuery(c.SQL) }) {
+		// a crashing firewall is the business of C14 / C05; what it logged until then still counts here
+		info.verdict = "panicked (C14)"
+		notePanic(pvs[0].Sig, c.SQL, yml)
+	} else {
+		info.verdict = "allowed"
+		if err != nil {
+			info.verdict = "denied"
+		}
 	}
-	info.verdict = "allowed"
-	if err != nil {
-		info.verdict = "denied"
+	entries := lc.since(me, mo)
+	info.entries = len(entries)
+	for _, e := range entries {
+		if strings.Contains(e.Msg, "replaced") {
+			info.showedQuery = true
+		}
 	}
-	// files first (gives the background writers time), then the log entries
+	checkEntries(&vs, "censor-log", entries, p, all)
+	// the files are written by background goroutines
 	reachedCapture := p.ok && len(c.Cfg.Handlers) > 0 && c.Cfg.Handlers[0].Kind == "query_capture"
 	for _, f := range captures {
 		text := waitFile(f, reachedCapture)
@@ -204,7 +225,7 @@ func CheckCensor(c CensorCase) (vs hx.Vs, info censorInfo) {
 		}
 		if p.ok {
 			for _, l := range findLeaks(p.located, text) {
-				vs.Add(leakSig("capture-file", l), "query capture file shows the %s literal %s (%s): %s", l.Spell, l.Text, l.clause(), short(text))
+				vs.Add(leakSig("capture-file", l, text), "query capture file shows the %s literal %s (%s): %s", l.Spell, l.Text, l.clause(), short(text))
 				break
 			}
 		} else if len(findLeaks(all, text)) > 0 {
@@ -221,14 +242,6 @@ func CheckCensor(c CensorCase) (vs hx.Vs, info censorInfo) {
 			info.parseErrLog = true // allowed: this file is where the operator asked for such statements
 		}
 	}
-	entries := lc.since(me, mo)
-	info.entries = len(entries)
-	for _, e := range entries {
-		if strings.Contains(e.Msg, "replaced") {
-			info.showedQuery = true
-		}
-	}
-	checkEntries(&vs, "censor-log", entries, p, all)
 	return vs, info
 }
 
